@@ -2,7 +2,7 @@
 # usage: tools/seedkeep.sh <PROP> <m-k> "<what I ran / result>"   -> copies into /verif/seeded/<PROP>-<m-k>/
 set -eu
 prop="$1"; mk="$2"; ran="$3"
-dst="/verif/seeded/$prop-$mk"; src="/tmp/seed-out/$prop/$mk"
+dst="/verif/seeded/$prop-${SEEDTAG:-}$mk"; src="${SEEDOUT:-/tmp/seed-out}/$prop/$mk"
 mkdir -p "$dst"
 cp "$src/patch.diff" "$dst/patch.diff"
 for f in demo.py test_demo.py; do [ -f "$src/$f" ] && cp "$src/$f" "$dst/$f"; done
